@@ -319,7 +319,7 @@ def run_query(q, shape, scratch_root, tier):
             replayable = q.get('replayable', q['cls'] == 'B' or not q.get('loop_contracts'))
             if replayable and '--slice-formula' in cb:
                 cb2 = [x for x in cb if x != '--slice-formula']
-                for (name, _d, _l) in r.failed[:3]:
+                for (name, _d, _l) in r.failed[:8]:
                     cb2 += ['--property', name]
                 outp2 = os.path.join(sdir, 'out2.json')
                 rc2, _, _, _ = sh(cb2, timeout=tmo, mem_gb=q.get('mem_gb', 12), stdout_path=outp2)
